@@ -156,7 +156,7 @@ func runSingle(t *testing.T, unit string, n, f int) {
 	sec.Bounds["failed_peer_index"] = f
 	sec.Bounds["pinset"] = "every single pin: allocations = every set of 1..3 of the n peers x (min,max) in 1<=min<=max<=3 with |alloc|<=max, plus pin-everywhere"
 	sec.Bounds["metrics"] = "every survivor valid|expired x failed peer's informer metric valid|absent (all 2^n pictures)"
-	sec.Bounds["config"] = "repinning enabled & not follower: all triggers {ping, ping twice, ping on private snapshots, non-ping alert, PeerRemove at first survivor, PeerRemove at the removed peer}; follower: same triggers, 3 metric pictures (all valid, none valid, first survivor expired); repinning disabled: non-ping alert and PeerRemove, same 3 pictures (ping alerts with repinning disabled: unit disabled-ping)"
+	sec.Bounds["config"] = "repinning enabled & not follower: all triggers {ping, ping twice, ping after an earlier ping alert on an empty pinset, ping after an earlier ping alert during which reading the shared state failed, ping on private snapshots, non-ping alert, PeerRemove at first survivor, PeerRemove at the removed peer}; follower: same triggers, 3 metric pictures (all valid, none valid, first survivor expired); repinning disabled: non-ping alert and PeerRemove, same 3 pictures (ping alerts with repinning disabled: unit disabled-ping)"
 	surv := survivors(n, f)
 	pins := singlePins(n)
 	hv := healthVectors(n, f)
@@ -166,7 +166,7 @@ func runSingle(t *testing.T, unit string, n, f int) {
 			var trigs, trigsLite []trig
 			if len(surv) > 0 {
 				if !cfg.dis {
-					trigs = append(trigs, trig{"ping", "shared"}, trig{"ping", "snapshot"}, trig{"ping2", "shared"})
+					trigs = append(trigs, trig{"ping", "shared"}, trig{"ping", "snapshot"}, trig{"ping2", "shared"}, trig{"idleping+ping", "shared"}, trig{"stateerr+ping", "shared"})
 					trigsLite = append(trigsLite, trig{"ping", "shared"})
 				}
 				trigs = append(trigs, trig{"nonping", "shared"}, trig{fmt.Sprintf("remove@%d", surv[0]), "shared"})
